@@ -3,7 +3,7 @@
    returned value satisfies P. *)
 From ZV.Common Require Import Base.
 From ZV.C15 Require Import Model ProofsCore ProofsSeq ProofsLz ProofsPz ProofsHex ProofsIo ProofsAll.
-From ZV.C15 Require Import ModelBlob ModelCases ProofsBlob ModelIo2 ProofsIo2.
+From ZV.C15 Require Import ModelBlob ModelCases ProofsBlob ModelIo2 ProofsIo2 ModelHuff ProofsHuff.
 Open Scope N_scope.
 
 (* every modelled parser (39 entry points), every argument, every byte string shorter than 2^60:
@@ -286,3 +286,81 @@ Check length_prefixed_read_regressed_refuted :
   (exists data, nlen data = 65542 /\ alloc_of (sdi_lp_bytes_g true data) = 2 ^ 40) /\
   (exists data, nlen data = 65546 /\ sdi_lp_bytes_g true data = Panic).
 Print Assumptions length_prefixed_read_regressed_refuted.
+
+(* HuffmanTree::deserialize and ContextualHuffmanEncoder::deserialize (byte strings = lists of numbers
+   below 256): the parse never panics and reserves at most 8 (28) bytes per input byte; every code has
+   at most 255 bits; the tree construction cannot panic for ANY insertion order (the HashMap order is
+   not a function of the input) and nests at most |code| + 1 <= 256 calls of insert_code_into_tree; a
+   deserialised contextual encoder has at least one tree and only valid tree indices in its context map *)
+Theorem huffman_deserialize_total :
+  (forall fixed data, nlen data < 2 ^ 60 -> bytes_ok data ->
+     good (fun '(tb, _) => codes_short tb) (8 * nlen data) (ht_deser fixed data)) /\
+  (forall ord, good (fun _ => True) 0 (ht_build ord)) /\
+  (forall c t, (insert_calls t c <= length c + 1)%nat) /\
+  (forall fixed data, nlen data < 2 ^ 58 -> bytes_ok data ->
+     good ctx_idx_ok (28 * nlen data) (ctx_deser fixed data)).
+Proof. split; [exact ht_deser_good | split; [exact ht_build_good | split; [exact insert_calls_le | exact ctx_deser_good]]]. Qed.
+Check huffman_deserialize_total :
+  (forall fixed data, nlen data < 2 ^ 60 -> bytes_ok data ->
+     good (fun '(tb, _) => codes_short tb) (8 * nlen data) (ht_deser fixed data)) /\
+  (forall ord, good (fun _ => True) 0 (ht_build ord)) /\
+  (forall c t, (insert_calls t c <= length c + 1)%nat) /\
+  (forall fixed data, nlen data < 2 ^ 58 -> bytes_ok data ->
+     good ctx_idx_ok (28 * nlen data) (ctx_deser fixed data)).
+Print Assumptions huffman_deserialize_total.
+Example huffman_deserialize_nontrivial :
+  ctx_deser true [1; 2; 0; 0; 0; 1; 0; 0; 0; 97; 0; 0; 0; 1; 0; 0; 0;
+                  8; 0; 0; 0; 2; 0; 97; 1; 0; 98; 1; 1;  5; 0; 0; 0; 1; 0; 122; 1; 0]
+  = Ok (HC.mkC 1 [H.mkHT (Some (H.Node (H.Leaf 97) (H.Leaf 98))) [(98, [true]); (97, [false])];
+                  H.mkHT (Some (H.Leaf 122)) [(122, [false])]] [(97, 1%nat)]) 163.
+Proof. vm_compute. reflexivity. Qed.
+
+(* HuffmanDecoder::decode, ContextualHuffmanDecoder::decode (orders 0/1/2, for every encoder with valid
+   indices), decode_x1..x8: no panic; the output is no longer than the expected length AND no longer
+   than 8 * input + 1; nothing is reserved from the caller-supplied length alone *)
+Theorem huffman_decode_total :
+  (forall root bytes outlen, nlen bytes < 2 ^ 60 ->
+     good (fun out => nlen out <= outlen /\ nlen out <= 8 * nlen bytes + 1)
+          (N.min outlen (8 * nlen bytes + 1)) (huff_decode_o true root bytes outlen)) /\
+  (forall e bytes outlen, ctx_idx_ok e -> nlen bytes < 2 ^ 60 ->
+     good (fun out => nlen out <= outlen /\ nlen out <= 8 * nlen bytes + 1)
+          (2 * N.min outlen (8 * nlen bytes + 1)) (ctx_decode_o e bytes outlen)) /\
+  (forall e nst bytes outlen, nlen bytes < 2 ^ 60 ->
+     good (fun _ => True) (XN_TABLE_BYTES + N.min outlen (8 * nlen bytes)) (xn_decode_o e nst bytes outlen)).
+Proof. split; [exact huff_decode_o_good | split; [exact ctx_decode_o_good | exact xn_decode_o_good]]. Qed.
+Check huffman_decode_total :
+  (forall root bytes outlen, nlen bytes < 2 ^ 60 ->
+     good (fun out => nlen out <= outlen /\ nlen out <= 8 * nlen bytes + 1)
+          (N.min outlen (8 * nlen bytes + 1)) (huff_decode_o true root bytes outlen)) /\
+  (forall e bytes outlen, ctx_idx_ok e -> nlen bytes < 2 ^ 60 ->
+     good (fun out => nlen out <= outlen /\ nlen out <= 8 * nlen bytes + 1)
+          (2 * N.min outlen (8 * nlen bytes + 1)) (ctx_decode_o e bytes outlen)) /\
+  (forall e nst bytes outlen, nlen bytes < 2 ^ 60 ->
+     good (fun _ => True) (XN_TABLE_BYTES + N.min outlen (8 * nlen bytes)) (xn_decode_o e nst bytes outlen)).
+Print Assumptions huffman_decode_total.
+Example huffman_decode_nontrivial :
+  huff_decode_o true (Some (H.Node (H.Leaf 97) (H.Node (H.Leaf 98) (H.Leaf 99)))) [180; 1] 5
+  = Ok [97; 97; 98; 99; 97] 5.
+Proof. vm_compute. reflexivity. Qed.
+
+(* the two code shapes that were repaired: Vec::with_capacity(output_length) (capacity overflow for
+   usize::MAX, 4 GiB for 2^32-1 from one input byte), and a code of length zero accepted by deserialize
+   (decode_next_symbol then returns its symbol without consuming a bit) *)
+Theorem huffman_unfixed_refuted :
+  (huff_decode_o false (Some (H.Leaf 1)) [0] (W64 - 1) = Panic /\
+   alloc_of (huff_decode_o false (Some (H.Leaf 1)) [0] (W32 - 1)) = W32 - 1) /\
+  (exists data, nlen data = 4 /\ ht_deser true data = Err 0 /\
+     exists tb, ht_deser false data = Ok (tb, 0) 0 /\
+       forall bits, HC.dns true (H.mkHT (Some (H.Leaf 97)) tb) bits = Some (97, bits)).
+Proof.
+  split; [split; [exact huff_decode_uncapped_panics | exact huff_decode_uncapped_allocates]|].
+  exists [1; 0; 97; 0]. split; [reflexivity|]. split; [exact zero_len_rejected|].
+  exists [(97, [])]. split; [exact zero_len_accepted | exact zero_len_no_progress].
+Qed.
+Check huffman_unfixed_refuted :
+  (huff_decode_o false (Some (H.Leaf 1)) [0] (W64 - 1) = Panic /\
+   alloc_of (huff_decode_o false (Some (H.Leaf 1)) [0] (W32 - 1)) = W32 - 1) /\
+  (exists data, nlen data = 4 /\ ht_deser true data = Err 0 /\
+     exists tb, ht_deser false data = Ok (tb, 0) 0 /\
+       forall bits, HC.dns true (H.mkHT (Some (H.Leaf 97)) tb) bits = Some (97, bits)).
+Print Assumptions huffman_unfixed_refuted.
